@@ -72,6 +72,10 @@ def mutants_at(text, pos, ref_base):
             out.append(("bare-word", text[:pos] + "bareword\n" + text[pos:]))
             out.append(("stray-quoted", text[:pos] + '"stray string"\n' + text[pos:]))
             out.append(("stray-bracket", text[:pos] + "[[stray]]\n" + text[pos:]))
+            if pos > 0:
+                # a byte order mark that is not at the start of the file is stray text like any other
+                out.append(("stray-bom", text[:pos] + "\ufeff\n" + text[pos:]))
+                out.append(("stray-bom-glued", text[:pos] + "\ufeff" + text[pos:]))
     return out
 
 
